@@ -1,6 +1,6 @@
 import Ucan.Gen.ChainProofs
 import Ucan.Props.Tie.ChainDefs
-import Ucan.Props.Tie.Command
+import Ucan.Props.Tie.CommandCovers
 import Ucan.Lemmas.Chain
 /-! Regenerated-code tie for `verifyProofs` (C01, C02, C05). -/
 set_option linter.unusedSimpArgs false
